@@ -11,7 +11,7 @@ Load(c) == /\ desc' = [i \in 1..Len(c.desc) |->
                          [parent |-> c.desc[i].parent, type |-> c.desc[i].type, rev |-> c.desc[i].rev = 1,
                           RF |-> c.desc[i].RF, RM |-> c.desc[i].RM,
                           pF |-> IV(c.desc[i].pF), pM |-> IV(c.desc[i].pM), com |-> IV(c.desc[i].com),
-                          mass |-> c.desc[i].mass, ic |-> c.desc[i].ic]]
+                          mass |-> c.desc[i].mass, ic |-> c.desc[i].ic, opt |-> c.desc[i].opt]]
            /\ q' = c.q /\ u' = c.u
 EInit == l = 1 /\ desc = <<>> /\ q = <<>> /\ u = <<>>
 ENext == l <= Len(Log) /\ l' = l + 1 /\ Load(Log[l])
